@@ -30,6 +30,15 @@ type sqlResult struct {
 	ix         *sqlx.Index
 	siteFns    map[*ssa.Function]bool
 	varLimit   int
+	stmts      []sqlStmt
+}
+
+// sqlStmt is one instantiated statement text with the function it originates in.
+type sqlStmt struct {
+	fn   *ssa.Function
+	pos  string
+	text string
+	mig  bool
 }
 
 func topFn(f *ssa.Function) *ssa.Function {
@@ -142,6 +151,7 @@ func (c *Ctx) sqlAnalysis() *sqlResult {
 			if len(res.samples) < 12 {
 				res.samples = append(res.samples, pos+": "+q.String())
 			}
+			res.stmts = append(res.stmts, sqlStmt{fn: topFn(s.Fn), pos: pos, text: text, mig: inMigration})
 			isDDL := sqlx.IsDDL(text)
 			var prep *sqlx.Prepared
 			switch {
